@@ -33,9 +33,20 @@ def run(ctx):
         return
     vamm_v, trader_v = ex.msgfield("vamm"), ex.msgfield("trader")
 
+    # the base ratio is what the MarginRatio query answers: anchor by use (the ratio function that query arm calls)
+    base_fns = set()
+    try:
+        _mra = arms.Arm(ix, ENG, "MarginRatio", entry="query")
+        base_fns.add(_mra.fn.key)
+    except KeyError:
+        pass
+
     def is_base_ratio(v):
         vi = ix.inline(v)
-        return tag(vi) == "unwrap" and tag(kids(vi)[0]) == "call" and "Integer" in (ix.call_target(kids(vi)[0]).locals[0]["ty"] if ix.call_target(kids(vi)[0]) else "") \
+        if not (tag(vi) == "unwrap" and tag(kids(vi)[0]) == "call"):
+            return False
+        t = ix.call_target(kids(vi)[0])
+        return t is not None and t.key in base_fns and "Integer" in t.locals[0]["ty"] \
             and len(kids(kids(vi)[0])) == 3 and vamm_v in set(sym.walk(ex.s(vi))) and trader_v in set(sym.walk(ex.s(vi)))
 
     def is_oracle_ratio(v):
@@ -46,7 +57,35 @@ def run(ctx):
         return False
     bad1 = bad2 = None
     classes = set()
-    for q in ex.ok_paths():
+
+    def is_ratio_fn(t):
+        return t is not None and (t.locals[0]["ty"].replace(" ", "").endswith("Integer,cosmwasm_std::StdError>") or t.locals[0]["ty"].endswith("integer::Integer"))
+
+    def handler_paths():
+        """success paths of the Liquidate handler; a helper that picks the ratio (returns an Integer result and has
+        several success paths) is spliced in, so the selection conditions are visible wherever they were moved"""
+        out = []
+        for q in ex.ok_paths():
+            work = [q]
+            for _round in range(2):
+                nxt = []
+                for w_ in work:
+                    ev = None
+                    for e in w_.events:
+                        if e.target is not None and is_ratio_fn(e.target) and tag(e.result) == "call" and not is_base_ratio(sym.unwrap(e.result)) \
+                                and not is_oracle_ratio(sym.unwrap(e.result)):
+                            try:
+                                if len(ix.ok_paths_at(e.target, ix.param_map(e.target, e.args))) >= 2:
+                                    ev = e
+                                    break
+                            except Exception:
+                                pass
+                    nxt.extend(ix.expand_on(w_, ev) if ev is not None else [w_])
+                work = nxt
+            out.extend(work)
+        return out
+    hpaths = handler_paths()
+    for q in hpaths:
         # which ratio is compared with maintenance on this path?
         selected = None
 
@@ -86,8 +125,8 @@ def run(ctx):
         if not want_oracle and not is_base_ratio(sel):
             bad2 = bad2 or "ratio compared is %s where the base margin ratio is required (over=%s, oracle-higher=%s)" % (sym.show(ix.inline(sel), 4), over, diffpos)
         classes.add((over, diffpos))
-    ctx.inst("R06.1", "insufficient-margin-guard", bad1 is None and bool(ex.ok_paths()), ex.fn.where(),
-             "%d success paths; %s" % (len(ex.ok_paths()), "each establishes ratio <= config.maintenance_margin_ratio" if bad1 is None else "a success path lacks the guard"))
+    ctx.inst("R06.1", "insufficient-margin-guard", bad1 is None and bool(hpaths), ex.fn.where(),
+             "%d success paths; %s" % (len(hpaths), "each establishes ratio <= config.maintenance_margin_ratio" if bad1 is None else "a success path lacks the guard"))
     ctx.inst("R06.2", "ratio-selection", bad2 is None and (True, True) in classes and len(classes) >= 3, ex.fn.where(),
              bad2 or "classes (over-spread, oracle-higher) %s: oracle ratio iff both" % sorted(classes, key=str))
 
@@ -99,11 +138,16 @@ def run(ctx):
             fns.append((nm, qa))
         except KeyError as e:
             ctx.lost("R06.3", str(e))
+    def pnl_chooser(e):
+        """a helper that returns the (notional, pnl) pair but is not the per-option primitive itself"""
+        t = e.target
+        return "PositionUnrealizedPnlResponse" in t.locals[0]["ty"] and not any("PnlCalcOption" in t.locals[i + 1]["ty"] for i in range(t.arg_count))
+
     for nm, qa in fns:
         bad = None
         n = 0
         seen = set()
-        for q in qa.ok_paths():
+        for q in splice(ix, qa.ok_paths(), pnl_chooser):
             # pnl calls with Spot and Twap options
             pn = {}
             for e in q.events:
@@ -154,8 +198,18 @@ def run(ctx):
         ratio_users.add(mra.fn.key)
     except KeyError as e:
         ctx.lost("R06.7", str(e))
-    for q in ex.ok_paths():
-        ratio_users.update(e.target.key for e in q.events if e.target is not None)
+    def callees(fn, depth, acc):
+        try:
+            ps = ix.ok_paths(fn)
+        except Exception:
+            return
+        for q in ps:
+            for e in q.events:
+                if e.target is not None and e.target.key not in acc:
+                    acc.add(e.target.key)
+                    if depth > 0:
+                        callees(e.target, depth - 1, acc)
+    callees(ex.fn, 2, ratio_users)
     for f in sorted(ctx.world.crate_fns(ENG), key=lambda f: f.pretty):
         if f.derived or "::_::" in f.pretty or f.kind == "Closure" or f.arg_count < 3 or f.key not in ratio_users:
             continue
@@ -170,7 +224,11 @@ def run(ctx):
             continue
         bad = None
         live = 0
-        for q in oks:
+        def ratio_part(e, f=f):
+            # helpers the ratio computation was split into: the pnl chooser, or a function that finishes the ratio
+            t = e.target
+            return t.key != f.key and (pnl_chooser(e) or (is_ratio_fn(t) and t.key not in base_fns and any("Deps" in t.locals[i + 1]["ty"] for i in range(t.arg_count))))
+        for q in splice(ix, oks, ratio_part):
             r = N(ix, sym.unwrap(q.ret))
             if r == ("pos", ("int", 0)) or r == ("int", 0):
                 continue   # the zero-size early return
